@@ -208,10 +208,10 @@ impl<'a, 'r, 'o, 'd, 'i, 'c> Subject<'a, 'r, 'o, 'd, 'i, 'c> {
         let new_inl: Option<&'a AstNode<'a>> = match c {
             '\0' => return false,
             '\r' | '\n' => Some(self.handle_newline()),
-            '`' => Some(self.handle_backticks(&node_ast.line_offsets)),
+            '`' => Some(self.handle_backticks(&node_ast.line_offsets[adjusted_line..])),
             '\\' => Some(self.handle_backslash()),
             '&' => Some(self.handle_entity()),
-            '<' => Some(self.handle_pointy_brace(&node_ast.line_offsets)),
+            '<' => Some(self.handle_pointy_brace(&node_ast.line_offsets[adjusted_line..])),
             ':' => {
                 let mut res = None;
 
@@ -305,7 +305,7 @@ impl<'a, 'r, 'o, 'd, 'i, 'c> Subject<'a, 'r, 'o, 'd, 'i, 'c> {
             '^' if self.options.extension.superscript && !self.within_brackets => {
                 Some(self.handle_delim(b'^'))
             }
-            '$' => Some(self.handle_dollars(&node_ast.line_offsets)),
+            '$' => Some(self.handle_dollars(&node_ast.line_offsets[adjusted_line..])),
             '|' if self.options.extension.spoiler => Some(self.handle_delim(b'|')),
             _ => {
                 let mut endpos = self.find_special_char();
